@@ -1,23 +1,14 @@
+import NomtModel.Store.WalkerSimVisit
 import NomtModel.Store.WalkerSimCompact
+import NomtModel.Store.WalkerGSimCompact
 /-!
 # The visitor of `replace_terminal`: the mirror against the tree walker
 -/
-namespace Nomt.Walker
+namespace Nomt.Walker.G
 open Nomt Nomt.TriePos
 open Nomt.Wal (PageDiff)
 
 variable {Node VH : Type} [DecidableEq Node] [DecidableEq VH] (H : Hasher Node VH) (ps : PageSet Node)
-
-/-- the freshness hint of the first bit is the page-boundary test itself -/
-theorem downBit_hint (w : Walker Node) (b : Bool) :
-    w.downBit ps (decide (w.position.depthInPage = DEPTH) || w.position.isRoot) b = w.downBit ps true b := by
-  unfold Walker.downBit
-  by_cases hr : w.position.isRoot = true
-  · simp [hr]
-  · have hr' : w.position.isRoot = false := by cases h : w.position.isRoot <;> simp_all
-    by_cases hd : w.position.depthInPage = DEPTH
-    · simp [hr', hd]
-    · simp [hr', hd]
 
 /-- `down` into fresh territory -/
 theorem sim_down (hfresh : ∀ P, (ps.fresh P).length = 126) : ∀ (bits : List Bool) (w : Walker Node) (a : TW Node),
@@ -45,16 +36,6 @@ theorem sim_down (hfresh : ∀ P, (ps.fresh P).length = 126) : ∀ (bits : List 
     simp only
     rw [hsame1.1] at hs2
     exact ⟨w2, hw2, hs2, Same.trans' hsame1 hsame2, hcpr2.trans hcpr1, hroot2.trans hroot1⟩
-
-/-- what a visitor call needs from the state it is made in -/
-def VisitSafe (top : Nat) (noParent : Bool) (a : TW Node) : WriteNode Node VH → Prop
-  | .leaf false down _ _ _ =>
-      ((a.pos = [] ∧ noParent = true) ∨ top < a.pos.length) ∧ a.pos.length + down.length ≤ 256
-  | .leaf true (d0 :: rest) _ _ _ =>
-      top < a.pos.length ∧ d0 = !(a.pos.getLast?.getD false) ∧ a.pos.length + rest.length ≤ 256
-  | .leaf true [] _ _ _ => False
-  | .internal _ _ _ => top < a.pos.length ∧ ((a.pos.dropLast = [] ∧ noParent = true) ∨ top < a.pos.length - 1)
-  | .terminator => (a.pos = [] ∧ noParent = true) ∨ top < a.pos.length
 
 /-- `descend` -/
 theorem sim_descend (hfresh : ∀ P, (ps.fresh P).length = 126) (sd : Nat) (down : List Bool) {w : Walker Node} {a : TW Node}
@@ -103,8 +84,9 @@ theorem sim_visit (hs : H.Sound) (hfresh : ∀ P, (ps.fresh P).length = 126) (sd
     (Lfin : List (PageId × Store Node))
     (hfin : w.reconstruction = true → SmallBy H ps Lfin ∧
       (a.visit H (cfgOf H ps w.parentPage) sd c).log <+: Lfin) :
-    ∃ w', w.visit H ps sd c = .ok w' ∧ Sim H ps w' (a.visit H (cfgOf H ps w.parentPage) sd c) ∧ Same w w' ∧
-      w'.childPageRoots = w.childPageRoots := by
+    (∃ w', w.visit H ps sd c = .ok w' ∧ Sim H ps w' (a.visit H (cfgOf H ps w.parentPage) sd c) ∧ Same w w' ∧
+      w'.childPageRoots = w.childPageRoots) ∨
+    (w.reconstruction = false ∧ w.visit H ps sd c = .panic GUARD) := by
   have hnone : ∀ {P : Prop}, (P ∧ w.parentPage.isNone = true) → (P ∧ w.parentPage = none) :=
     fun hp => ⟨hp.1, Option.isNone_iff_eq_none.mp hp.2⟩
   unfold TW.visit at hfin
@@ -120,7 +102,7 @@ theorem sim_visit (hs : H.Sound) (hfresh : ∀ P, (ps.fresh P).length = 126) (sd
     rw [hw1]
     simp only [TW.down] at hs1
     obtain ⟨w2, hw2, hs2, hsame2, hcpr2⟩ := sim_writeHere H ps hs1 H.term (by rw [hsame1.1]; exact hscope)
-    exact ⟨w2, hw2, hs2, Same.trans' hsame1 hsame2, hcpr2.trans hcpr1⟩
+    exact Or.inl ⟨w2, hw2, hs2, Same.trans' hsame1 hsame2, hcpr2.trans hcpr1⟩
   | leaf up down k v n =>
     cases up with
     | false =>
@@ -142,7 +124,7 @@ theorem sim_visit (hs : H.Sound) (hfresh : ∀ P, (ps.fresh P).length = 126) (sd
           | nil => left; simp [hn, hp]
           | cons d0 dr => right; rw [hn, hp]; simp [k0]
         · right; simp; omega)
-      exact ⟨w2, hw2, hs2, Same.trans' hsame1 hsame2, hcpr2.trans hcpr1⟩
+      exact Or.inl ⟨w2, hw2, hs2, Same.trans' hsame1 hsame2, hcpr2.trans hcpr1⟩
     | true =>
       cases down with
       | nil => exact absurd hsafe (by simp [VisitSafe])
@@ -170,7 +152,7 @@ theorem sim_visit (hs : H.Sound) (hfresh : ∀ P, (ps.fresh P).length = 126) (sd
           rw [hsame1.1]
           show 6 * k0 w.parentPage < (TW.down (cfgOf H ps w.parentPage) _ rest true).pos.length
           rw [hpos1]; simp [sibPath_length]; omega)
-        exact ⟨w2, hw2, hs2, Same.trans' hsame1 hsame2, hcpr2.trans hcpr1⟩
+        exact Or.inl ⟨w2, hw2, hs2, Same.trans' hsame1 hsame2, hcpr2.trans hcpr1⟩
   | internal l r n =>
     obtain ⟨hd, hup⟩ := hsafe
     have hne := sim_pos_ne (w := w) hd
@@ -197,11 +179,15 @@ theorem sim_visit (hs : H.Sound) (hfresh : ∀ P, (ps.fresh P).length = 126) (sd
     simp only
     have hpos1 : (if z = true then a.setSibling H.term else a).pos = a.pos := by
       cases z <;> rfl
-    obtain ⟨w2, hw2, hs2, hsame2, hcpr2, _⟩ := sim_up H ps hs1 (by rw [hsame1.1, hpos1]; exact hd) (by
+    rcases sim_up H ps hs1 (by rw [hsame1.1, hpos1]; exact hd) (by
       intro hr hdip
       have hr0 : w.reconstruction = true := by rw [← hsame1.2.2.2.2]; exact hr
       obtain ⟨hsb, hpre⟩ := hfin hr0
-      exact hsb w1 _ hs1 hr hdip hpre)
+      exact hsb w1 _ hs1 hr hdip hpre) with ⟨w2, hw2, hs2, hsame2, hcpr2, _⟩ | ⟨hnr, hp⟩
+    case inr =>
+      right
+      refine ⟨by rw [← hsame1.2.2.2.2]; exact hnr, ?_⟩
+      rw [hp]
     rw [hw2]
     simp only
     have hpos2 : ((if z = true then a.setSibling H.term else a).up).pos = a.pos.dropLast := by
@@ -222,7 +208,7 @@ theorem sim_visit (hs : H.Sound) (hfresh : ∀ P, (ps.fresh P).length = 126) (sd
       rcases hup with hh | hh
       · exact Or.inl (hnone hh)
       · right; rw [List.length_dropLast]; exact hh)
-    exact ⟨w4, hw4, hs4, Same.trans' (Same.trans' (Same.trans' hsame1 hsame2) hsame3) hsame4,
+    exact Or.inl ⟨w4, hw4, hs4, Same.trans' (Same.trans' (Same.trans' hsame1 hsame2) hsame3) hsame4,
       hcpr4.trans (hcpr3.trans (hcpr2.trans hcpr1))⟩
 
-end Nomt.Walker
+end Nomt.Walker.G
